@@ -91,7 +91,7 @@ Definition PG : list (list op) := [[ONew 0 0; ODrop 0; OReload 0 1]].
 Definition sG : state := run (step WX) (init PG) (repeat 0 8).
 Lemma gone_witness :
   reachable (step WX) (init PG) sG /\ 0 < st_n sG /\ th_pc (st_thr sG 0) = PIdle /\ th_prog (st_thr sG 0) = [OReload 0 1] /\
-  st_created sG 0 = true /\ live sG 0 = false.
+  st_created sG 0 = true /\ live sG 0 = false /\ cell_live sG 0 = false.
 Proof.
   split; [apply reach_run|]. vm_compute. auto.
 Qed.
